@@ -26,10 +26,10 @@ def setup(E):
     return sc, kfn, init, xs, n
 
 
-def the_loop(E, k, what):
+def the_loop(E, k, what, also=()):
     """the k-th lax.scan the real code ran on this path (a refuted obligation, not a checker crash, when there is none)"""
     scans = getattr(E.I, "scans", [])
-    E.require(f"C12.{what}.runs_the_kernel_loop_over_all_iterations", len(scans) > k)
+    E.require(f"C12.{what}.runs_the_kernel_loop_over_all_iterations", len(scans) > k, also=also)
     return scans[k]
 
 
@@ -103,7 +103,7 @@ def t_simulate(E):
     E.refutable("scan.simulate", E.eq(E.method(tr, "get_score"), 0.0))
 
 
-@task("scan.assess_generate", props=["C02", "C03", "C04", "C12"], functions=FUNCS)
+@task("scan.assess_generate", props=["C01", "C02", "C03", "C04", "C12"], functions=FUNCS)
 def t_assess_generate(E):
     z3, T = E.z3, E.I.T
     sc, kfn, init, xs, n = setup(E)
@@ -136,8 +136,19 @@ def t_assess_generate(E):
         co, so = pair(E, T.tr_retval(gt))
         return E.And(E.eq(tr_i, UVal(gt, "Trace")), E.eq(gl.carry_at(i + 1)[2], co), E.eq(out_i, so),
                      E.eq(w_i, SReal(T.cdens(gt, sub(i)))), E.eq(s_i, SReal(T.tr_score(gt))))
-    E.prove("C03.Scan.generate.iteration_i_gets_submap_i_and_its_weight", forall_i(E, n, grec))
+    # (C12 / C01: the per-iteration SCORE that is summed into the trace score is the kernel trace's score - not its weight)
+    E.prove("C03.Scan.generate.iteration_i_gets_submap_i_and_its_weight", forall_i(E, n, grec), also=["C12", "C01"])
     loop_key_discipline(E, gl, k, gkey_at, lambda c: c[0], n, "Scan.generate", 0)
+    # C01: the trace Scan.generate returns agrees with assess on its own choices and arguments (lock-step induction)
+    gret = E.method(tr, "get_retval")
+    nb2 = n_scans(E)
+    gscore, garet = wf(E, sc, tr)
+    gal = the_loop(E, nb2, "Scan.assess")
+    gal.prove_invariant(E, "C01.Scan.assess.lockstep_with_generate",
+                        lambda i, cy: z3.And(zint(cy[0]) == i, E.eq(cy[1], gl.carry_at(i)[2])))
+    E.prove("C01.Scan.generate.wf.score", E.eq(gscore, E.method(tr, "get_score")))
+    E.prove("C01.Scan.generate.wf.final_carry", E.eq(garet[0], gret[0]))
+    E.prove("C01.Scan.generate.wf.stacked_outputs", forall_i(E, n, lambda i: E.eq(garet[1].at(i), gret[1].at(i))))
     E.prove("C03.Scan.generate.weight_is_sum_of_iteration_weights", E.eq(w, E.I.make_sum(Stacked(n, lambda i: gl.unfold(i)[3]))))
     E.prove("C12.Scan.generate.score_is_sum", E.eq(E.method(tr, "get_score"), E.I.make_sum(Stacked(n, lambda i: gl.unfold(i)[2]))))
     E.prove("C12.Scan.generate.retval", E.eq(E.method(tr, "get_retval")[0], gl.carry_at(n)[2]))
@@ -200,7 +211,9 @@ def _edit_loop(E, kind):
         req = E.new(REQ + ":Regenerate", selection=s)
         sub = lambda i: req                                                   # the SAME selection at every iteration
     new, w, rd, bwd = E.method(sc, "edit", k, old, req, ad)
-    loop = the_loop(E, 0, f"Scan.edit_{kind}")
+    # (C07 / C05: whatever the selection / constraint and whatever the carry's tag, every iteration is re-visited - an argument
+    # change of the scanned inputs re-scores the unselected / unconstrained choices: weight = new score - old score)
+    loop = the_loop(E, 0, f"Scan.edit_{kind}", also=["C07"] if kind == "regenerate" else ["C05"])
     E.cover(f"scan.edit_{kind}.reached")
     P = f"Scan.edit_{kind}"
     loop.prove_invariant(E, f"C12.{P}.counter_is_iteration_number", lambda i, cy: zint(cy[1]) == i)
@@ -227,13 +240,17 @@ def _edit_loop(E, kind):
                 "backward_request": E.I.to_u(bwd_i) == want_bwd,
                 "carry_is_threaded": T.d_primal(E.I.to_u(nv)) == co.t,
                 "scanned_output": T.d_primal(E.I.to_u(out_i)) == so.t}
+    # for Regenerate the same clauses decide C07: every iteration receives the SAME selection (sub(i) = the request), at the new
+    # arguments, and the weight is the sum of the kernel weights
+    own = ["C07"] if kind == "regenerate" else []
+    wprop = "C07" if kind == "regenerate" else "C05"
     for part in ("new_kernel_trace", "score_and_weight", "backward_request", "carry_is_threaded", "scanned_output"):
         E.prove(f"C12.{P}.iteration_i_edits_kernel_trace_i_with_its_subrequest_and_the_carry_of_i-1.{part}",
-                forall_i(E, n, lambda i: rec(i)[part]))
+                forall_i(E, n, lambda i: rec(i)[part]), also=own)
     loop_key_discipline(E, loop, k, key_at, lambda c: c[0], n, P, 0)
     c0 = loop.carry_at(z3.IntVal(0))
     E.prove(f"C12.{P}.initial_carry_is_the_new_init", E.And(T.d_primal(E.I.to_u(c0[2])) == new_init.t, E.eq(c0[0], k)))
-    E.prove(f"C05.{P}.weight_is_sum_of_iteration_weights", E.eq(w, E.I.make_sum(Stacked(n, lambda i: loop.unfold(i)[3]))))
+    E.prove(f"{wprop}.{P}.weight_is_sum_of_iteration_weights", E.eq(w, E.I.make_sum(Stacked(n, lambda i: loop.unfold(i)[3]))))
     E.prove(f"C12.{P}.score_is_sum_of_new_kernel_scores",
             E.eq(E.method(new, "get_score"), E.I.make_sum(Stacked(n, lambda i: loop.unfold(i)[2]))))
     # C05 weight law.  ScanTrace invariant (established by every constructor: obligations C12.Scan.*.score_is_sum*): the old
@@ -246,9 +263,9 @@ def _edit_loop(E, kind):
     new_sum = E.I.make_sum(Stacked(n, lambda i: loop.unfold(i)[2]))
     w_sum = E.I.make_sum(Stacked(n, lambda i: loop.unfold(i)[3]))
     E.I.sum_linear([(1, w_sum), (-1, new_sum), (1, old_sum), (-1, slack_sum)])
-    E.prove(f"C05.{P}.weight_is_score_change_plus_the_kernel_slack_of_each_iteration", E.eq(
+    E.prove(f"{wprop}.{P}.weight_is_score_change_plus_the_kernel_slack_of_each_iteration", E.eq(
         w, SReal(zreal(E.method(new, "get_score")) - zreal(E.method(old, "get_score")) + slack_sum.t)))
-    E.prove(f"C05.{P}.args_are_the_new_arguments", E.eq(E.method(new, "get_args"), (new_init, new_xs)))
+    E.prove(f"{wprop}.{P}.args_are_the_new_arguments", E.eq(E.method(new, "get_args"), (new_init, new_xs)))
     ret = E.method(new, "get_retval")
     E.prove(f"C12.{P}.retval_is_final_carry_and_stacked_outputs", E.And(
         E.I.to_u(ret[0]) == T.d_primal(E.I.to_u(loop.carry_at(n)[2])),
